@@ -77,12 +77,24 @@ def r1_reheapify(ctx: Context, rule="C16.R1") -> None:
     eq = mod.cls("EventQueue")
     rm = method(eq, "remove_event")
     g = cfgmod.build(rm)
-    rem = [c for c in calls_in(rm, "remove") if is_self_attr(c.func.value, "_event_queue")]
-    ctx.floor(rule, "list.remove in EventQueue.remove_event", len(rem), 1)
+    # every statement of remove_event that changes the backing list (method call, subscript store, del, sift helper)
+    muts = []
+    for node in ast.walk(rm):
+        if isinstance(node, ast.Call) and isinstance(node.func, ast.Attribute) and is_self_attr(node.func.value, "_event_queue") \
+                and node.func.attr in ("remove", "pop", "clear", "insert", "append", "extend", "sort", "reverse"):
+            muts.append(node)
+        elif isinstance(node, ast.Subscript) and is_self_attr(node.value, "_event_queue") and isinstance(node.ctx, (ast.Store, ast.Del)):
+            muts.append(node)
+        elif isinstance(node, ast.Call) and any(is_self_attr(a, "_event_queue") for a in node.args) \
+                and call_name(node) not in ("heapify", "len", "list", "sorted", "iter", "min", "filter"):
+            muts.append(node)
+    ctx.floor(rule, "statements of EventQueue.remove_event that change the heap list", len(muts), 1)
     reh = {g.node_of(c).id for c in calls_in(rm, "reheapify")} | {g.node_of(c).id for c in calls_in(rm, "heapify")}
-    ok = bool(reh) and not g.reachable(g.node_of(rem[0]), g.ret, avoid=reh)
-    ctx.check(ok, rule, "EventQueue.remove_event|heapify after remove", loc(rem[0]), "re-heapified",
-              "list.remove breaks the heap shape and remove_event does not restore it")
+    for mnode in muts:
+        ok = bool(reh) and not g.reachable(g.node_of(mnode), g.ret, avoid=reh)
+        ctx.check(ok, rule, f"EventQueue.remove_event|heapify after `{norm(mnode)[:50]}`", loc(mnode), "re-heapified",
+                  f"`{norm(mnode)[:60]}` changes the heap's backing list and some path leaves remove_event without "
+                  "heapify(): the heap shape is not restored and later pops can come out of (time, type) order")
     rh = method(eq, "reheapify")
     ok = any(dotted(c.func) == "heapq.heapify" and c.args and is_self_attr(c.args[0], "_event_queue") for c in calls_in(rh))
     ctx.check(ok, rule, "EventQueue.reheapify|heapq.heapify(self._event_queue)", loc(rh), "heapify on the backing list",
@@ -367,8 +379,8 @@ def r5_eventtime(ctx: Context, rule="C16.R5") -> None:
 
 
 def run(ctx: Context) -> None:
-    r1_reheapify(ctx)
-    r2_encapsulation(ctx)
-    r3_ordering_key(ctx)
-    r4_type_priorities(ctx)
-    r5_eventtime(ctx)
+    ctx.isolate(r1_reheapify)
+    ctx.isolate(r2_encapsulation)
+    ctx.isolate(r3_ordering_key)
+    ctx.isolate(r4_type_priorities)
+    ctx.isolate(r5_eventtime)
